@@ -423,7 +423,9 @@ def cut_case(prop, seed, idx, tier):
                                 cr.add_viols(W.c09(r2, st), payload_world(s2, plan, ["C09"]))
                         best_f = e.fun
                 else:
-                    if V < best_v:
+                    if V < best_v and V < 1e6:
+                        # (tolerances beyond the barrier magnitude 2**100 would make an undefined, barrier-valued
+                        # reply count as feasible; such configurations are not generated)
                         newtol = V + 1e-6 * max(1.0, V)
                         if best_v > newtol + 1e-6 * max(1.0, newtol) and (e.idx in ks or cnt < 4):
                             s2 = copy.deepcopy(stmt)
